@@ -76,6 +76,8 @@ def run(case, W):
         labels.append("two-pending")
     if t.q["refused_w"]:
         labels.append("back-pressure")
+    if s["input"] and not s["input"].endswith(b"\n") and any(a[0] == S.AT_LINE and a[2] == S.WA_TRIG for a in s["actions"]):
+        labels.append("event-while-line-incomplete")
     nok = sum(1 for st in t.status if st[1] == S.S_OK)
     if nok >= 2:
         labels.append("several-ok-phases")
